@@ -2,6 +2,7 @@ package governance
 
 import (
 	"fmt"
+	"math/big"
 
 	"github.com/pkg/errors"
 
@@ -132,20 +133,27 @@ func (pvs *ProposalVoteStore) ResultSoFar(proposalID ProposalID, passPercent int
 	noPower := eachPower[OPIN_NEGATIVE]
 	yesPercentage := 0.0
 	noPercentage := 0.0
-	passPercentage := float64(passPercent) / 100.0
 	if totalPower > 0 {
 		yesPercentage = float64(yesPower) / float64(totalPower)
 		noPercentage = float64(noPower) / float64(totalPower)
 	}
 
+	// The decisions compare exact integers: the float percentages above are
+	// for the log only (1.0-0.33 < 0.67 in float64 failed a 67% proposal that
+	// the remaining 67% of the power could still pass).
+	pass := big.NewInt(int64(passPercent))
+	needed := new(big.Int).Mul(pass, big.NewInt(totalPower))
+	yesShare := new(big.Int).Mul(big.NewInt(yesPower), big.NewInt(100))
+	notNoShare := new(big.Int).Mul(big.NewInt(totalPower-noPower), big.NewInt(100))
+
 	// Proposal passed if received enough votes of YES
-	if yesPercentage >= passPercentage {
+	if totalPower > 0 && yesShare.Cmp(needed) >= 0 {
 		logger.Detailf("%v, passed, YES percentage= %v", info, yesPercentage)
 		stat := NewVoteStatus(VOTE_RESULT_PASSED, yesPower, noPower, allPower)
 		return stat, nil
 	}
 	// Proposal failed if received enough votes of NO
-	if (1.0 - noPercentage) < passPercentage {
+	if totalPower > 0 && notNoShare.Cmp(needed) < 0 {
 		logger.Detailf("%v, failed, NO percentage= %v", info, noPercentage)
 		stat := NewVoteStatus(VOTE_RESULT_FAILED, yesPower, noPower, allPower)
 		return stat, nil
